@@ -522,6 +522,72 @@ def run_lock(ctx, r, drv, hl):
                 r.sample({'input_and_schedule': i_, 'observed': o_})
 
 
+# ---------------------------------------------------------------------------- the real-concurrency STRESS part
+ST_NAME = {'SPI': 'split (predecessor completes inline in start)', 'SPA': 'split (predecessor completes from a racing thread)',
+           'ES': 'ensure_started (consumer start races the predecessor completion)',
+           'STI': 'split_tuple (inline predecessor)', 'STA': 'split_tuple (predecessor completes from a racing thread)'}
+
+
+def st_classify(f, K):
+    """the property on one trial's observation: predecessor started once, callable ran once, every consumer one value"""
+    if f.get('starts') != '1':
+        return 'predecessor_started_%s' % ('never' if f.get('starts') == '0' else 'twice'), \
+            'the shared predecessor was started %s times by %d concurrent consumers' % (f.get('starts'), K)
+    if f.get('calls') != '1':
+        return 'callable_ran_%s' % ('never' if f.get('calls') == '0' else 'twice'), 'the callable in front of the shared state ran %s times' % f.get('calls')
+    want, stride = f.get('want', '0+0i').rstrip('i').split('+')
+    for i, x in enumerate(f.get('sig', '').split('|')):
+        n, val, other = x.split(':')
+        if n == '0':
+            return 'consumer_lost', 'consumer %d was never signalled although every start() and the predecessor completion returned' % (i + 1)
+        if n != '1':
+            return 'consumer_multi', 'consumer %d was signalled %s times' % (i + 1, n)
+        if other != '0' or int(val) != int(want) + i * int(stride):
+            return 'consumer_wrong', 'consumer %d got %s (error/stopped signals: %s), expected value %d' % (i + 1, val, other, int(want) + i * int(stride))
+    return 'inconsistent', 'harness reported a bad trial'
+
+
+def run_stress(ctx, r, hl):
+    quick = ctx.tier == 'quick'
+    n, budget = (1100000, 12000) if quick else (11000000, 120000)
+    rc, out = sh([hl, 'stress', str(ctx.seed), str(n), str(budget)], timeout=budget / 1000 + 240)
+    lines = out.split('\n')
+    rep0 = {'harness': 'c03_lock', 'args': ['stress', ctx.seed, n, budget]}
+    done = [x for x in lines if x.startswith('DONE ST ')]
+    if rc != 0 or not done:
+        r.hits.append(Hit('tie', 'C03:stress_harness', 'stress harness failed rc=%d: %s' % (rc, out[-400:]), rep0))
+    for l in lines:
+        if l.startswith('SUM ST '):
+            q = l.split(' ')
+            r.count('stress=%s/K=%s' % (q[2], q[3]), int(q[4]))
+            r.nontrivial('stress %s K=%s: %s consumers released from a spin barrier' % (q[2], q[3], q[3]))
+        elif l.startswith('BAD ST '):
+            f = dict(x.split('=', 1) for x in l.split(' ')[3:] if '=' in x)
+            K = int(f.get('K', '0'))
+            what, text = st_classify(f, K)
+            r.hits.append(Hit('monitor', 'C03:stress:%s:%s' % (f.get('mode'), what),
+                              '%s, K=%d concurrent start() calls (offsets %s): %s [%s]' % (ST_NAME.get(f.get('mode'), f.get('mode')), K, f.get('delays'), text, l),
+                              dict(rep0, trial=l.split(' ')[2], observed=l)))
+        elif l.startswith('DIED ST '):
+            q = l.split(' ')
+            f = dict(x.split('=', 1) for x in q[4:] if '=' in x)
+            r.hits.append(Hit('monitor', 'C03:stress:%s:died:%s' % (f.get('mode'), q[3]),
+                              '%s, K=%s concurrent start() calls: the process running the real shared state %s in trial %s'
+                              % (ST_NAME.get(f.get('mode'), f.get('mode')), f.get('K'),
+                                 {'abort': 'aborted', 'hang': 'hung', 'segv': 'crashed'}.get(q[3], q[3]), q[2]),
+                              dict(rep0, trial=q[2], observed=l)))
+        elif l.startswith('SKIPPED ST'):
+            r.notes.append('stress harness stopped early: ' + l)
+    if done:
+        m = re.search(r'trials=(\d+) ms=(\d+)', done[0])
+        if m:
+            r.extra['stress_trials'] = int(m.group(1))    # reported separately: not mixed into the case count
+            r.extra['stress_ms'] = int(m.group(2))
+            if int(m.group(1)) < 200000 and not any(h.signature.startswith('C03:stress') for h in r.hits):
+                r.notes.append('stress: only %s trials fitted into the %d ms budget (machine overloaded)' % (m.group(1), budget))
+        r.sample({'stress': done[0], 'modes': [x for x in lines if x.startswith('SUM ST ')]})
+
+
 def run(ctx):
     r = Result()
     r.rule = ('DIFF: pipeline terms (depth<=4 over 19 constructors, leaf channel value/error/stopped, leaf timing inline / '
@@ -529,11 +595,19 @@ def run(ctx):
               'boxed in unique_any_sender, and compared with the extracted evaluator (equal when all leaves are inline, '
               'member of den otherwise); plus a statically typed un-erased corpus. LOCKSTEP: split/ensure_started/'
               'split_tuple hand-off and when_all(_vector) join under controller-chosen interleavings replayed by '
-              'Model/Handoff.v. Non-trivial = >=2 adaptor kinds or an asynchronous leaf / >=2 threads interleaving.')
+              'Model/Handoff.v. STRESS (c03_lock stress): real concurrency, no controller — K in {2,3,4} consumers of ONE split '
+              'sender (K in {2,3} element senders of one split_tuple; for ensure_started the single consumer against the '
+              'predecessor completion) are released from a spin barrier with offsets swept over 0..255 spin iterations and call '
+              'start() at the same instant; predecessor = counting leaf | then(counting callable), completing inline or from one '
+              'more racing thread; monitor per trial: leaf started exactly once, callable ran exactly once, every consumer exactly '
+              'one set_value with the right value; forked child, crash/hang = hit; 1.1 M trials quick (11 M thorough), time-boxed. '
+              'Non-trivial = >=2 adaptor kinds or an asynchronous leaf / >=2 threads interleaving / a stress (mode, K) class.')
     ctx.build_pika()
     drv = ctx.build_model('C03', 'ExtractC03.v', 'drv_c03.ml')
     hp = ctx.build_harness('c03_pipe', 'c03_pipe.cpp')
     hl = ctx.build_harness('c03_lock', 'c03_lock.cpp')
     run_pipes(ctx, r, drv, hp)
     run_lock(ctx, r, drv, hl)
+    if not ctx.replay:
+        run_stress(ctx, r, hl)
     return r
